@@ -428,7 +428,18 @@ func Verif_C06_ops() {
 			pending := verifTimers
 			verifTimers = nil
 			for _, t := range pending {
+				armed, failed := len(verifTimers), verifRedis.delFailed
 				clean(t.key, t.val)
+				if verifRedis.delFailed > failed {
+					// the retry itself failed: it is re-armed once, later than before ("increasing delays")
+					verifAssert(len(verifTimers) == armed+1, "del failed: a retry that fails again arms exactly one further retry")
+					for _, nt := range verifTimers[armed:] {
+						verifAssert(nt.delay > t.delay, "del failed: a retry that fails again is re-armed with a longer delay")
+					}
+					verifReach("retry-failed-again")
+				} else {
+					verifAssert(len(verifTimers) == armed, "del failed: a retry that succeeds arms nothing further")
+				}
 			}
 		}
 		verifAssert(len(verifRedis.data) == 0, "del failed: every named key is removed once a retry succeeds")
